@@ -997,6 +997,11 @@ func genCase(t *rapid.T) txCase {
 			f.Lock = rapid.Uint32().Draw(t, "flockv")
 		}
 		no := rapid.IntRange(1, 4).Draw(t, "fnout")
+		if i == 0 && rapid.IntRange(0, 4).Draw(t, "fmany") == 0 {
+			// a funding transaction with many outputs: two- and three-digit output indexes in unspent.txt
+			// (written as %03d by the client: 008, 009, 010, 077, 100 ...)
+			no = rapid.SampledFrom([]int{9, 10, 11, 12, 20, 65, 78, 101, 130}).Draw(t, "fnout_many")
+		}
 		for o := 0; o < no; o++ {
 			f.Outs = append(f.Outs, fout{spk: genSpk(t, "fo", 75), Value: genValue(t, "fo")})
 			all = append(all, [2]int{i, o})
